@@ -72,7 +72,8 @@ def cases(tier, seed):
             for lo in range(0, n, step):
                 yield {"shape": list(shp), "nvars": nvars, "internal": internal,
                        "ignore": ignore, "ctype": ctype, "method": method,
-                       "kinds": kinds, "lo": lo, "hi": min(n, lo + step)}
+                       "kinds": kinds, "lo": lo, "hi": min(n, lo + step),
+                       "stored": (lo // step + nvars) % 3}
     for method in ("isnull", "isfinite"):
         yield {"loop": True, "method": method}
 
@@ -116,7 +117,18 @@ def make_ds(case, assign):
         data[v] = (tuple(names) + (("t",) if has_t else ()), arr)
     if internal and internal != "nolabel":
         coords["t"] = [10, 20]
-    return xr.Dataset(data, coords=coords), names, coords, locs
+    ds = xr.Dataset(data, coords=coords)
+    if len(names) >= 2 and case.get("stored"):
+        # the variables store their axes in another order than the dataset
+        # lists its dimensions (coordinates declared first, variables added
+        # afterwards with transposed axes)
+        ds2 = xr.Dataset(coords=coords)
+        for v in vnames:
+            dd = list(ds[v].dims)
+            ds2[v] = ds[v].transpose(*(dd[::-1] if case["stored"] == 1
+                                       else dd[1:] + dd[:1]))
+        ds = ds2
+    return ds, names, coords, locs
 
 
 def oracle(ds, fn_args, method):
